@@ -452,6 +452,77 @@ class NearPlaintexts(Part):
         return res
 
 
+class NearCiphertexts(Part):
+    name = "near_equal_ciphertexts"
+    desc = "a valid $9$ string S and every single edit of it (1-3 characters appended, cut by 1-4, each position deleted / substituted by 3 characters) in one run, both orders: one replacement iff the independent decoder gives both the same identity (plaintext, or the string itself when it does not decode)"
+
+    def __init__(self, tier, seed):
+        self.tier, self.seed = tier, seed
+
+    def cases(self):
+        plains = ["hunter2", "ab"] + (["Tr0ub4dor&3", "x"] if self.tier == "thorough" else [])
+        return [{"plain": p, "salt": sc, "order": o} for p in plains for sc in ("Q", "k") for o in ("S-first", "edit-first")]
+
+    def edits(self, S):
+        out = []
+        for tail in ("a", "Q", "-", "aQ", "zz", "Qa9", "---"):
+            out.append(S + tail)
+        for cut in (1, 2, 3, 4):
+            if len(S) - cut > 3:
+                out.append(S[:-cut])
+        for pos in range(3, len(S)):
+            out.append(S[:pos] + S[pos + 1:])
+            for sub in ("Q", "a", "-"):
+                if S[pos] != sub:
+                    out.append(S[:pos] + sub + S[pos + 1:])
+        seen = []
+        for e in out:
+            if e != S and e not in seen:
+                seen.append(e)
+        return seen
+
+    @staticmethod
+    def identity(t):
+        try:
+            return ("plain", refs.j9_decode(t))
+        except refs.Malformed:
+            return ("opaque", t)
+
+    def run(self, case):
+        from netconan.anonymize_files import FileAnonymizer
+
+        res = Res()
+        S = refs.j9_encode(case["plain"], case["salt"], "xyz")
+        eds = [case["edit"]] if "edit" in case else self.edits(S)
+        for e in eds:
+            pair = (S, e) if case["order"] == "S-first" else (e, S)
+            res.evals += 1
+            with seams.capture_logs():
+                fa = FileAnonymizer(anon_pwd=True, anon_ip=False, salt="saltForTest")
+                reps = []
+                for sct in pair:
+                    buf = io.StringIO()
+                    fa.anonymize_io(io.StringIO('set system x secret "%s"\n' % sct), buf)
+                    tok = buf.getvalue().rstrip("\n").split(" ")[-1].strip('"')
+                    reps.append(canon_repl(tok).split(":", 1))
+            same_id = self.identity(pair[0]) == self.identity(pair[1])
+            res.out((same_id, reps[0][1] == reps[1][1]))
+            if not same_id:
+                res.nt(e)
+            kind = None
+            if same_id and reps[0][1] != reps[1][1]:
+                kind = "equal-secrets-different-replacements"
+            elif not same_id and reps[0][1] == reps[1][1]:
+                kind = "different-secrets-same-replacement"
+            if kind:
+                res.violation("%s|near-ciphertexts|%s" % (kind, case["order"]),
+                              "%r (%r) and %r (%r) in one run -> replacements %r" % (
+                                  pair[0], self.identity(pair[0]), pair[1], self.identity(pair[1]), reps), dict(case, edit=e))
+        if "edit" not in case:
+            res.samples.append({"S": S, "edits": len(eds)})
+        return res
+
+
 class LongLines(Part):
     name = "same_secret_on_short_and_long_lines"
     desc = "one secret on a short line, then straddling column 2^k (k = 8..16) of a long line at every split position (4096, 8192; three positions elsewhere), then on a short line again: one replacement throughout; a second secret gets another"
@@ -688,5 +759,5 @@ class EveryWhitespaceAsSeparator(Part):
 
 
 def parts(tier, seed):
-    return [HistoryPart(tier, seed), SaltChars(tier, seed), LongHistory(tier, seed), NearPlaintexts(tier, seed), LongLines(tier, seed), Quotings(tier, seed),
+    return [HistoryPart(tier, seed), SaltChars(tier, seed), LongHistory(tier, seed), NearPlaintexts(tier, seed), NearCiphertexts(tier, seed), LongLines(tier, seed), Quotings(tier, seed),
             GluedAfterQuote(tier, seed), EveryWhitespaceAsSeparator(tier, seed)]
